@@ -154,7 +154,7 @@ func initInt64() {
 		"<<<",
 		func(_ *Thread, args []value.Value) (value.Value, value.Value) {
 			self := args[0].AsInt64()
-			return value.ToValueErr(value.StrictIntLogicalLeftBitshift(self, args[1], value.LogicalRightShift32))
+			return value.ToValueErr(value.StrictIntLogicalLeftBitshift(self, args[1], value.LogicalRightShift64))
 		},
 		DefWithParameters(1),
 	)
@@ -172,7 +172,7 @@ func initInt64() {
 		">>>",
 		func(_ *Thread, args []value.Value) (value.Value, value.Value) {
 			self := args[0].AsInt64()
-			return value.ToValueErr(value.StrictIntLogicalRightBitshift(self, args[1], value.LogicalRightShift32))
+			return value.ToValueErr(value.StrictIntLogicalRightBitshift(self, args[1], value.LogicalRightShift64))
 		},
 		DefWithParameters(1),
 	)
